@@ -294,11 +294,6 @@ package dastard
 //@   trusted
 //@   modifies any(DataRecord).pretrigMean, any(DataRecord).pretrigDelta, any(DataRecord).pulseAverage, any(DataRecord).pulseRMS, any(DataRecord).peakValue, any(DataRecord).modelCoefs, any(DataRecord).residualStdDev
 
-//@ func (*DataPublisher).PublishData
-//@   trusted
-//@   ensures result == nil
-//@   modifies dp.numberWritten
-
 // processSegment: the block is appended, triggered, analysed and published; the stream is NOT
 // trimmed here (the secondary records of this cycle are still to be cut from the same window).
 //@ func (*DataStreamProcessor).processSegment
